@@ -85,6 +85,18 @@ OPTS_PROGS = [
     ('joiner-call-count', '((Option<i64>, Option<i64>, Option<i64>), Vec<usize>)',
      '{ let calls = std::cell::RefCell::new(Vec::new()); macro_rules! cj { ($($e:expr),*) => {{ let t = ($($e),*); calls.borrow_mut().push([$(stringify!($e)),*].len()); t }} } let r = join! { custom_joiner(cj!) Some(1_i64) ~|> |x| x + 1 ~|> |x| x + 1, Some(2_i64), Some(3_i64) ~|> |x| x * 2 }; let c = calls.borrow().clone(); (r, c) }',
      '((Some(3), Some(2), Some(6)), vec![3, 2])'),
+    # the options in the THREAD kinds: the joiner is invoked once per multi-branch step with the JoinHandles of exactly the active branches
+    ('spawn-joiner-call-count', '((Option<i64>, Option<i64>, Option<i64>), Vec<usize>)',
+     '{ let calls = std::cell::RefCell::new(Vec::new()); macro_rules! cj { ($($e:expr),*) => {{ let t = ($($e),*); calls.borrow_mut().push([$(stringify!($e)),*].len()); t }} } let r = join_spawn! { custom_joiner(cj!) Some(1_i64) ~|> |x| x + 1 ~|> |x| x + 1, Some(2_i64), Some(3_i64) ~|> |x| x * 2 }; let c = calls.borrow().clone(); (r, c) }',
+     '((Some(3), Some(2), Some(6)), vec![3, 2])'),
+    # .. all branch threads of the step are alive at once also with a custom joiner (each branch waits for its sibling, with a timeout)
+    ('spawn-joiner-branches-alive-together', '(Option<(i64, bool)>, Option<(i64, bool)>)',
+     '{ use std::sync::{Arc, Mutex, Condvar}; let st = Arc::new((Mutex::new(0usize), Condvar::new())); let meet = { let st = st.clone(); move || { let (m, c) = &*st; let mut g = m.lock().unwrap(); *g += 1; c.notify_all(); let (_g, r) = c.wait_timeout_while(g, std::time::Duration::from_millis(3000), |n| *n < 2).unwrap(); !r.timed_out() } }; macro_rules! cj { ($($e:expr),*) => { ($($e),*) } } let (m1, m2) = (meet.clone(), meet.clone()); join_spawn! { custom_joiner(cj!) Some(1_i64) |> move |x| (x, m1()), Some(2_i64) |> move |x| (x, m2()) } }',
+     '(Some((1, true)), Some((2, true)))'),
+    # .. lazy_branches(false) in a thread kind: the branch expression is evaluated by the CALLER and must yield the closure the thread runs
+    ('spawn-lazy-false-evaluates-on-caller', 'String',
+     '{ fn tn() -> String { std::thread::current().name().unwrap_or("?").to_string() } fn mk(i: i64) -> impl FnOnce() -> String + Send + \'static { let c = tn(); move || format!("{}:{}>{}", i, c, tn()) } std::thread::Builder::new().name("p".into()).spawn(|| { let r = join_spawn! { lazy_branches(false) mk(0), mk(1) }; format!("{}|{}", r.0, r.1) }).unwrap().join().unwrap() }',
+     '"0:p>p_join_0|1:p>p_join_1".to_string()'),
 ]
 
 
